@@ -281,6 +281,32 @@ def generated_models():
         body = ''.join(gen_bkm(i, js, ' + '.join(['x'] + ['b%d(x)' % j for j in js])) for i, js in g.items())
         body += gen_decision(0, [('b', 0), ('i', 0)], 'b0(i0)')
         model('knowledge-' + name, body, ['d0'] + ['b%d' % i for i in list(g)[:3]])
+    # decision services: a decision that requires and invokes a service of which it is itself an input / encapsulated / output decision,
+    # with the right and the wrong number of arguments; two services that reach each other through their decisions
+    def svc(i, outs, encs, ins, inputs=()):
+        s = '  <decisionService name="s%d" id="_s%d"><variable name="s%d"/>' % (i, i, i)
+        s += ''.join('<outputDecision href="#_d%d"/>' % j for j in outs) + ''.join('<encapsulatedDecision href="#_d%d"/>' % j for j in encs)
+        s += ''.join('<inputDecision href="#_d%d"/>' % j for j in ins) + ''.join('<inputData href="#_i%d"/>' % j for j in inputs)
+        return s + '</decisionService>\n'
+
+    def dec_svc(i, svcs, text, extra=()):
+        s = '  <decision name="d%d" id="_d%d">\n    <variable name="d%d"/>\n' % (i, i, i)
+        s += ''.join('    <knowledgeRequirement id="_ks_%d_%d"><requiredKnowledge href="#_s%d"/></knowledgeRequirement>\n' % (i, j, j) for j in svcs)
+        s += ''.join('    <informationRequirement id="_ir_%d_%d"><requiredDecision href="#_d%d"/></informationRequirement>\n' % (i, j, j) for j in extra)
+        return s + '    <literalExpression><text>%s</text></literalExpression>\n  </decision>\n' % text
+    leaf = gen_decision(1, [('i', 0)], 'i0')
+    for role in ('input', 'encapsulated', 'output'):
+        for text in ('s0(1)', 's0()', 's0(1, 2)', 's0(d0: 1)', '1'):
+            outs, encs, ins = ([0] if role == 'output' else [1]), ([0] if role == 'encapsulated' else []), ([0] if role == 'input' else [])
+            model('service-%s-decision-invokes-it-%s' % (role, text), dec_svc(0, [0], text) + leaf + svc(0, outs, encs, ins), ['d0', 's0', 'd1'])
+    # s0 -> d0 (output) -> invokes s1 -> d2 (output) -> invokes s0 ; and the same through input decisions
+    for role in ('input', 'output'):
+        a = svc(0, [0] if role == 'output' else [1], [], [0] if role == 'input' else [])
+        b = svc(1, [2] if role == 'output' else [1], [], [2] if role == 'input' else [])
+        model('services-mutual-%s' % role, dec_svc(0, [1], 's1(1)') + dec_svc(2, [0], 's0(1)') + leaf + a + b, ['d0', 'd2', 's0', 's1'])
+    # an input decision that is also required by the output decision, and a service whose input decision requires its output decision
+    model('service-input-requires-output', dec_svc(0, [], 'd1 + 1', extra=[1]) + leaf + svc(0, [1], [], [0]), ['d0', 's0'])
+    model('service-output-requires-input', dec_svc(0, [], 'd1 + 1', extra=[1]) + leaf + svc(0, [0], [], [1]), ['d0', 's0'])
     # tables: clauses vs entries
     for n_in in (0, 1, 2):
         for n_out in (0, 1, 2):
